@@ -236,7 +236,7 @@ func checkLidNS(leases []mtypes.LeaseID) []violation {
 
 func run(tier string) int {
 	start := time.Now()
-	budget := 95 * time.Second
+	budget := 110 * time.Second
 	if tier == "thorough" {
 		budget = 750 * time.Second
 	}
@@ -249,6 +249,9 @@ func run(tier string) int {
 	seed := evlib.Seed()
 
 	leases := genLeases()
+	nBase := len(leases)
+	leases = append(leases, genExtremeLeases()...)
+	extreme := func(li int) bool { return li >= nBase }
 	settings := genSettings(tier)
 	groups := genGroups(tier)
 	mustDistinct("lease", len(leases), func(i int) interface{} { return leases[i] })
@@ -261,13 +264,23 @@ func run(tier string) int {
 	var stopped int32
 	var firstMachErr atomic.Value
 
-	// ---- lidNS over the whole id set (pairwise) ----
-	for i := range leases {
-		for j := i + 1; j < len(leases); j++ {
+	// ---- lidNS over the id grid: every name a DNS-1123 label, no two ids share a name ----
+	grid := genLidNSGrid()
+	mustDistinct("lidns id", len(grid), func(i int) interface{} { return grid[i] })
+	{
+		seen := map[string]int{}
+		for i, l := range grid {
 			evalsN++
-			if vs := checkLidNS([]mtypes.LeaseID{leases[i], leases[j]}); len(vs) > 0 {
-				sib := leases[j]
-				col.add(vs, &caseInput{Path: "lidns", Lease: leases[i], Sibling: &sib})
+			n := kube.VerifLidNS(l)
+			if j, dup := seen[n]; dup {
+				sib := l
+				col.add(checkLidNS([]mtypes.LeaseID{grid[j], l}), &caseInput{Path: "lidns", Lease: grid[j], Sibling: &sib})
+			} else {
+				seen[n] = i
+			}
+			if vs := checkLidNS([]mtypes.LeaseID{l}); len(vs) > 0 {
+				sib := l
+				col.add(vs, &caseInput{Path: "lidns", Lease: l, Sibling: &sib})
 			}
 		}
 	}
@@ -295,6 +308,16 @@ func run(tier string) int {
 	}
 	pairLease := func(li int) bool { return leases[li].DSeq == 257 && leases[li].GSeq == leases[li].OSeq }
 	include := func(l, g, s int) bool {
+		if extreme(l) {
+			// extreme ids: every group x the settings with network policies on and one commit level
+			// for all resources (thorough: every setting of the quick list)
+			st := settings[s]
+			uniform := st.CPUCommitLevel == st.MemoryCommitLevel && st.MemoryCommitLevel == st.StorageCommitLevel
+			if tier != "thorough" {
+				return st.NetworkPoliciesEnabled && uniform
+			}
+			return quickSettings[s]
+		}
 		if tier != "thorough" {
 			// quick: every lease x one-service groups, 8 leases x two-service groups
 			return len(groups[g].Services) == 1 || pairLease(l)
@@ -368,14 +391,14 @@ func run(tier string) int {
 	var setB []int
 	for i, s := range settings {
 		if s.CPUCommitLevel == s.MemoryCommitLevel && s.MemoryCommitLevel == s.StorageCommitLevel {
-			if (s.CPUCommitLevel == 1 || s.CPUCommitLevel == 1.5) && (s.DeploymentRuntimeClass == "" || s.DeploymentRuntimeClass == "gvisor") {
+			if (s.CPUCommitLevel == 1 || s.CPUCommitLevel == 1.5) && (s.DeploymentRuntimeClass == "" || tier == "thorough" && s.DeploymentRuntimeClass == "gvisor") {
 				setB = append(setB, i)
 			}
 		}
 	}
 	var leaseB []int
 	for i, l := range leases {
-		if l.DSeq == 257 && l.GSeq == l.OSeq {
+		if l.DSeq == 257 && l.GSeq == l.OSeq || extreme(i) && l.Owner == leases[0].Owner && (l.DSeq == dseqMax || l.DSeq == dseq1e17) {
 			leaseB = append(leaseB, i)
 		}
 	}
@@ -510,15 +533,15 @@ func run(tier string) int {
 			Evaluations:        evals,
 			DistinctNontrivial: distinct,
 			Rule: "Inputs are enumerated by nested loops over finite lists (no randomness): " + describeGrammar(tier, L, S, G) +
-				". Path builders = product leases x groups x settings" + map[string]string{"quick": " (two-service groups only for the 8 leases with dseq 257 and gseq=oseq)", "thorough": " restricted to the quick tier's settings list, plus (4 leases: owners x providers at dseq 257,gseq 1,oseq 1) x one-service groups x ALL settings"}[tier] +
-				", each evaluated through every builder's create() and update(); path deploy = leases' x uniform-commit settings' x groups x 2 successor groups, each run through client.Deploy, Deploy(changed manifest), Deploy(second lease), TeardownLease on client-go/akash fake clientsets; path lidns = all lease pairs. " +
+				". Path builders = product leases x groups x settings" + map[string]string{"quick": " (two-service groups only for the 8 leases with dseq 257 and gseq=oseq; the 10 extreme ids x every group x the settings with network policies on and a uniform commit level)", "thorough": " restricted to the quick tier's settings list (extreme ids included), plus (4 leases: owners x providers at dseq 257,gseq 1,oseq 1) x one-service groups x ALL settings"}[tier] +
+				", each evaluated through every builder's create() and update(); path deploy = leases' x uniform-commit settings' x groups x 2 successor groups, each run through client.Deploy, Deploy(changed manifest), Deploy(second lease), TeardownLease on client-go/akash fake clientsets; path lidns = lidNS over a 640-id grid (2 owners x 2 providers x dseq{1,11,12,111,256,257,65536,10^17,2^63,2^64-1} x gseq,oseq{1,2,12,2^32-1}): every name a DNS-1123 label, no two ids share one. " +
 				"A case is counted non-trivial when the real code produced, besides Namespace and Deployments, at least one Service, Ingress or NetworkPolicy, or a container whose request is below its limit; distinctness is measured with a bitset over the input index space (list elements are verified pairwise distinct by hash at start-up).",
 			Samples:    samples,
 			Exhaustive: exhaustive,
 			Extra: map[string]interface{}{
 				"evaluations_builders":         evalsA,
 				"evaluations_deploy":           evalsB,
-				"evaluations_lidns_pairs":      evalsN,
+				"evaluations_lidns_ids":        evalsN,
 				"planned_builders":             plannedA,
 				"planned_deploy":               plannedB,
 				"nontrivial_builders":          ntA.count(),
